@@ -96,6 +96,16 @@ WORKSPACES = {
             "program pu\n  use mv\n  implicit none\n  mv_var = 1\nend program pu\n",
         ],
     },
+    # diagnostics that are computed from the text on every request (line-length limits switched on)
+    "W7_limits": {
+        "l.f90": [
+            "module lm\n  implicit none\n  integer :: a_rather_long_variable_name_one, a_rather_long_variable_name_two\nend module lm\n",
+            "module lm\n  implicit none\n  integer :: short_one\n  ! a comment line that is clearly longer than the limit for comment lines\nend module lm\n",
+        ],
+        "k.f90": [
+            "program lk\n  use lm\n  implicit none\n  print *, 'a line of the program that is long enough to exceed the limit'\nend program lk\n",
+        ],
+    },
     "W4_preproc": {
         "pp.F90": [
             "program pp\n#define LOCAL_PP_ONLY 1\n#ifdef LOCAL_PP_ONLY\n  integer :: seen_local\n#endif\n#include \"hh.h\"\n#ifdef FROM_HH\n  integer :: seen_hh\n#endif\n  include 'decl.f90'\n  from_decl = 1\nend program pp\n",
@@ -112,7 +122,8 @@ WORKSPACES = {
         ],
     },
 }
-QUERY = {"W6_move": ("user.f90", 3, 4), "W5_chain3": ("leaf.f90", 9, 6), "W1_types": ("u.f90", 4, 4), "W2_procs": ("b.f90", 9, 10), "W3_inherit": ("c.f90", 10, 9), "W4_preproc": ("pp.F90", 10, 4)}
+ARGV = {"W7_limits": ["--max_line_length", "50", "--max_comment_line_length", "40"]}
+QUERY = {"W7_limits": ("k.f90", 1, 6), "W6_move": ("user.f90", 3, 4), "W5_chain3": ("leaf.f90", 9, 6), "W1_types": ("u.f90", 4, 4), "W2_procs": ("b.f90", 9, 10), "W3_inherit": ("c.f90", 10, 9), "W4_preproc": ("pp.F90", 10, 4)}
 
 
 def admissible(ws, disk):
@@ -240,7 +251,7 @@ def build(ws, history, root, fake_pool):
     """Fresh directory + fresh server + replay.  Returns (server, model)."""
     m = Model(ws)
     write_disk(root, ws, m.disk)
-    s = Server([], fake_pool=fake_pool)
+    s = Server(ARGV.get(ws, []), fake_pool=fake_pool)
     resp, _ = s.initialize(root)
     if "error" in resp:
         raise core.HarnessError(f"initialize failed: {resp['error'].get('message')}")
@@ -284,7 +295,7 @@ def fresh_battery(ws, disk, root, fake_pool):
     if key not in _FRESH:
         for n in os.listdir(root):
             pass
-        s = Server([], fake_pool=fake_pool)
+        s = Server(ARGV.get(ws, []), fake_pool=fake_pool)
         s.initialize(root)
         files = {f: WORKSPACES[ws][f][v] for f, v in disk.items() if v is not None and not f.endswith(".h")}
         _FRESH[key] = run_battery(s, root, files)
@@ -414,7 +425,7 @@ def replay(rec):
         s, m = build(c["ws"], h, root, c.get("fake_pool", False))
         files = {f: WORKSPACES[c["ws"]][f][v] for f, v in m.disk.items() if v is not None and not f.endswith(".h")}
         got = run_battery(s, root, files)
-        s2 = Server([], fake_pool=c.get("fake_pool", False))
+        s2 = Server(ARGV.get(c["ws"], []), fake_pool=c.get("fake_pool", False))
         s2.initialize(root)
         want = run_battery(s2, root, files)
         d = diff_batteries(got, want, limit=6)
